@@ -11,21 +11,21 @@ package keyschedule
 // AddUint8LengthPrefixed as a one-byte length followed by the content); the clauses fix what is fed to the builder
 // and in which order. (Engine limit: the bytes of the finished structure cannot be stated - the nested length-prefixed
 // children of cryptobyte are beyond the solvers, all seven byte-layout clauses stayed `unknown` with 20 s.)
-//@ define INFO(x) argAs("Hash]", 2, label)
+//@ define INFO(x) argAs("hkdf.Expand", 2, label)
 //@ func HkdfExpandLabel
-//@ watch Hash] Builder.AddUint16 Builder.AddUint8LengthPrefixed Builder.AddBytes Builder.Bytes Hash.Size!
-//@ ensures missing-hash-rejected: hash == nil ==> result1 != nil && !called("Hash]")
-//@ ensures expand-at-most-once: ncalls("Hash]") <= 1
-//@ ensures expand-on-success: result1 == nil ==> ncalls("Hash]") == 1
-//@ ensures keyed-by-secret: called("Hash]") ==> sameSlice(argBytes("Hash]", 1), secret)
-//@ ensures out-length: called("Hash]") ==> argInt("Hash]", 3) == length
-//@ ensures label-min: called("Hash]") ==> 7 <= 6 + len(label)
-//@ ensures label-max: called("Hash]") ==> 6 + len(label) <= 255
-//@ ensures context-max: called("Hash]") ==> len(context) <= 255
-//@ ensures info-is-built-structure: called("Hash]") ==> ncalls("Builder.Bytes") == 1 && retErr("Builder.Bytes", 1) == nil && len(INFO(0)) == len(retBytes("Builder.Bytes", 0))
-//@ ensures length-field-first: called("Hash]") ==> ncalls("Builder.AddUint16") == 1 && argAs("Builder.AddUint16", 1, uint16(0)) == uint16(length)
+//@ watch hkdf.Expand Builder.AddUint16 Builder.AddUint8LengthPrefixed Builder.AddBytes Builder.Bytes Hash.Size!
+//@ ensures missing-hash-rejected: hash == nil ==> result1 != nil && !called("hkdf.Expand")
+//@ ensures expand-at-most-once: ncalls("hkdf.Expand") <= 1
+//@ ensures expand-on-success: result1 == nil ==> ncalls("hkdf.Expand") == 1
+//@ ensures keyed-by-secret: called("hkdf.Expand") ==> sameSlice(argBytes("hkdf.Expand", 1), secret)
+//@ ensures out-length: called("hkdf.Expand") ==> argInt("hkdf.Expand", 3) == length
+//@ ensures label-min: called("hkdf.Expand") ==> 7 <= 6 + len(label)
+//@ ensures label-max: called("hkdf.Expand") ==> 6 + len(label) <= 255
+//@ ensures context-max: called("hkdf.Expand") ==> len(context) <= 255
+//@ ensures info-is-built-structure: called("hkdf.Expand") ==> ncalls("Builder.Bytes") == 1 && retErr("Builder.Bytes", 1) == nil && len(INFO(0)) == len(retBytes("Builder.Bytes", 0))
+//@ ensures length-field-first: called("hkdf.Expand") ==> ncalls("Builder.AddUint16") == 1 && argAs("Builder.AddUint16", 1, uint16(0)) == uint16(length)
 //@    && calledBefore("Builder.AddUint16", "Builder.AddUint8LengthPrefixed")
-//@ ensures two-uint8-prefixed-vectors: called("Hash]") ==> ncalls("Builder.AddUint8LengthPrefixed") == 2 && ncalls("Builder.AddBytes") == 2
+//@ ensures two-uint8-prefixed-vectors: called("hkdf.Expand") ==> ncalls("Builder.AddUint8LengthPrefixed") == 2 && ncalls("Builder.AddBytes") == 2
 //@ ensures label-vector-first: always("Builder.AddBytes", "ncalls(\"Builder.AddBytes\") == 1 ==> ncalls(\"Builder.AddUint8LengthPrefixed\") == 0 && sameSlice(argBytes(\"Builder.AddBytes\", 1), fullLabel)")
 // (the bytes of fullLabel are stated at the last event before the first summarised cryptobyte call: the hash size query)
 //@ ensures size-queried-before-building: called("Builder.AddBytes") ==> ncalls("Hash.Size!") == 1 && calledBefore("Hash.Size!", "Builder.AddBytes")
@@ -33,19 +33,19 @@ package keyschedule
 //@ ensures label-has-dtls13-prefix: always("Hash.Size!", "forall(0, 6, func(i int) bool { return fullLabel[i] == \"dtls13\"[i] })")
 //@ ensures label-follows-prefix: always("Hash.Size!", "forall(0, len(label), func(i int) bool { return fullLabel[6+i] == label[i] })")
 //@ ensures context-vector-second: always("Builder.AddBytes", "ncalls(\"Builder.AddBytes\") == 2 ==> ncalls(\"Builder.AddUint8LengthPrefixed\") == 1 && sameSlice(argBytes(\"Builder.AddBytes\", 1), context)")
-//@ ensures result-is-expand-output: called("Hash]") ==> sameSlice(result0, retBytes("Hash]", 0)) && result1 == retErr("Hash]", 1)
+//@ ensures result-is-expand-output: called("hkdf.Expand") ==> sameSlice(result0, retBytes("hkdf.Expand", 0)) && result1 == retErr("hkdf.Expand", 1)
 //@ end
 
 // RFC 5869 2.2: HKDF-Extract(salt, IKM). Go's hkdf.Extract takes (hash, secret = IKM, salt): the arguments cross over.
 // (hkdf.Extract is a generic function; its instance is named `hkdf.Extract[func() hash.Hash]`, which the watch list
-// can only match by the suffix "Hash]".)
+// can only match by the suffix "hkdf.Expand".)
 //@ func HkdfExtract
-//@ watch Hash]
-//@ ensures missing-hash-rejected: hash == nil ==> result1 != nil && !called("Hash]")
-//@ ensures extract-once: hash != nil ==> ncalls("Hash]") == 1
-//@ ensures ikm-is-ikm: called("Hash]") ==> sameSlice(argBytes("Hash]", 1), ikm)
-//@ ensures salt-is-salt: called("Hash]") ==> sameSlice(argBytes("Hash]", 2), salt)
-//@ ensures result-is-prk: called("Hash]") ==> sameSlice(result0, retBytes("Hash]", 0)) && result1 == retErr("Hash]", 1)
+//@ watch hkdf.Extract
+//@ ensures missing-hash-rejected: hash == nil ==> result1 != nil && !called("hkdf.Extract")
+//@ ensures extract-once: hash != nil ==> ncalls("hkdf.Extract") == 1
+//@ ensures ikm-is-ikm: called("hkdf.Extract") ==> sameSlice(argBytes("hkdf.Extract", 1), ikm)
+//@ ensures salt-is-salt: called("hkdf.Extract") ==> sameSlice(argBytes("hkdf.Extract", 2), salt)
+//@ ensures result-is-prk: called("hkdf.Extract") ==> sameSlice(result0, retBytes("hkdf.Extract", 0)) && result1 == retErr("hkdf.Extract", 1)
 //@ end
 
 // RFC 8446 7.1: Derive-Secret(Secret, Label, Messages) = HKDF-Expand-Label(Secret, Label, Transcript-Hash(Messages), Hash.length);
